@@ -309,11 +309,19 @@ def model_line(fam, ast):
                 return 1 + sum(2 + count(e[1][1]) for e in args[0][1])
             return 1
 
+        def kinds(v):
+            c, args = v[1], v[2]
+            if c == "VArr":
+                return "v" + "".join(kinds(x) for x in args[0][1])
+            if c == "VObj":
+                return "v" + "".join("ek" + kinds(e[1][1]) for e in args[0][1])
+            return "v"
+
         def show(r):
             if fam == "c05":
                 if r[1] == "Ok":
                     v, cm = r[2][0][1]
-                    return "OK %s T%d" % (codemap_line(cm), count(v))
+                    return "OK %s T%d K%s" % (codemap_line(cm), count(v), kinds(v))
                 return "ERR" if r[1] == "Err" else "MODEL-" + r[1]
             if r[1] == "Ok":
                 return "OK"
